@@ -1,16 +1,38 @@
 """C13: exact command line / environment / directory; unique worker ids."""
 FUNCTIONS = [
     'circus.watcher:Watcher._nextwid',
+    # the worker object is built from the watcher's configured values and a fresh id ...
+    'circus.watcher:Watcher.spawn_process',
+    # ... and Popen receives exactly format_args' vector, the configured cwd and env
+    'circus.process:Process.spawn',
 ]
+EXCLUDE_CLAUSES = ['post[accounted]:Watcher.spawn_process']
 LEMMAS = []
-FRAMES = []
-ASSUMPTIONS = ['A-PY', 'A-TYPES: declared field sorts (checked at every store inside functions under contract)']
-TRUSTED = []
-NOT_DECIDED = ['what execve receives in a real child; uid/gid switching']
-DESIGN_REF = 'DESIGN.md section 8, C13'
-TECHNIQUE = 'contract-based deductive verification (pyvc VC generation from the real AST, z3/cvc5)'
-LEVEL_TEXT = ('Postconditions of the real Watcher._nextwid (worker id is >= 1, unused by every listed '
-              'process, minimal, RuntimeError only when 1..2n are all used) are discharged for all '
-              'process tables and all numprocesses.')
-LEVEL_NOTE = ('Trusted: CPython semantics of the modelled subset (A-PY), declared field sorts. '
-              'Not decided: what execve receives in a real child.')
+FRAMES = [
+    {'name': 'popen-sites', 'kind': 'call', 'callee': ['Popen'], 'methods_only': False,
+     'scope': ['circus.watcher', 'circus.process', 'circus.arbiter', 'circus.util', 'circus.commands', 'circus.stream'],
+     'what': 'workers are created only by the Popen call in Process.spawn',
+     'allowed': ['circus.process:Process.spawn']},
+    {'name': 'process-constructors', 'kind': 'call', 'callee': ['ProcCls', 'Process'], 'methods_only': False,
+     'scope': ['circus.watcher', 'circus.arbiter', 'circus.commands'],
+     'what': 'Process objects are constructed only in Watcher.spawn_process',
+     'allowed': ['circus.watcher:Watcher.spawn_process']},
+]
+ASSUMPTIONS = ['A-PY', 'A-TYPES: declared field sorts (checked at every store inside functions under contract)',
+               'T-PSUTIL psutil.Popen = subprocess.Popen executes exactly the argument vector / cwd / env it is given',
+               'A-PROCCLS']
+TRUSTED = ['Process.format_args and util.replace_gnu_args (regex substitution, shlex.split / quote): NOT verified -- the '
+           'contract of Process.spawn only states that what they return is what is executed',
+           'Process.__init__ (stores its arguments, calls spawn): trusted T-PSUTIL contract']
+NOT_DECIDED = ['the substitution itself: $(circus.wid), unknown variables left verbatim, list arguments kept as given, string '
+               'arguments split by shell quoting rules (format_args / replace_gnu_args are outside the string theories)',
+               'Watcher.__init__ env assembly (copy_env, copy_path)',
+               'what execve receives in a real child; uid/gid switching in the preexec function']
+DESIGN_REF = 'DESIGN.md section 8, C13 and 13.3'
+TECHNIQUE = ('contract-based deductive verification (call-site obligations on the real constructor call, ghost record of the '
+             'real Popen arguments; pyvc VCs, z3/cvc5)')
+LEVEL_TEXT = ('Worker ids: >= 1, unused by every listed process, minimal, RuntimeError only when 1..2n are all used. '
+              'Watcher.spawn_process constructs the worker from cmd (after variable substitution), args, working_dir, env, '
+              'uid, gid, shell, rlimits of the watcher and use_fds = use_sockets. Process.spawn calls Popen exactly once with '
+              'the vector returned by format_args, cwd = working_dir, env = env, close_fds = not use_fds, pipes as configured.')
+LEVEL_NOTE = 'The substitution / shell-splitting functions themselves are trusted, not verified.'
